@@ -225,6 +225,73 @@ class VC(object):
             self.ctx.solver.pop()
             del self.ctx.pc[pc_len:]
 
+    def find_sums(self, value):
+        """the registered partial-sum applications ps(n) occurring in value"""
+        sums = getattr(self.ctx, 'sums', {})
+        found, seen = [], set()
+
+        def walk(e):
+            if e.get_id() in seen:
+                return
+            seen.add(e.get_id())
+            if z3.is_app(e) and e.decl().kind() == z3.Z3_OP_UNINTERPRETED and str(e.decl()) in sums and e.num_args() == 1:
+                found.append(e)
+                return
+            for c in e.children():
+                walk(c)
+        walk(z3.simplify(value) if isinstance(value, z3.ExprRef) else z3.RealVal(value))
+        return found
+
+    def hint_blocks(self, pairs):
+        """instances of the quotient/remainder axioms of every block-coordinate pair created so far, at the given
+        (outer index, inner index) terms -- instances of hypotheses already assumed, stated to spare the solver the matching"""
+        for (q, m, oz, iz) in getattr(self.it, 'blocks', []):
+            for a, b in pairs:
+                self.ctx.assume(z3.Implies(z3.And(a >= 0, a < oz, b >= 0, b < iz),
+                                           z3.And(q(a * iz + b) == a, m(a * iz + b) == b, a * iz + b >= 0, a * iz + b < oz * iz)))
+
+    def resolve(self, e, depth=0):
+        """replace If(c, a, b) by the branch the path condition entails (solver query per condition)"""
+        if not isinstance(e, z3.ExprRef) or depth > 12:
+            return e
+        if z3.is_app(e) and e.decl().kind() == z3.Z3_OP_ITE:
+            c, a, b = e.children()
+            r, _ = self.ctx._check(z3.Not(c))
+            if r == z3.unsat:
+                return self.resolve(a, depth + 1)
+            r, _ = self.ctx._check(c)
+            if r == z3.unsat:
+                return self.resolve(b, depth + 1)
+            return e
+        if z3.is_app(e) and e.num_args() > 0 and e.decl().kind() in (z3.Z3_OP_ADD, z3.Z3_OP_SUB, z3.Z3_OP_MUL, z3.Z3_OP_UMINUS, z3.Z3_OP_TO_REAL):
+            ch = [self.resolve(c, depth + 1) for c in e.children()]
+            return e.decl()(*ch)
+        return e
+
+    def ensure_sum_plus(self, name, value, n, term, rest):
+        """value == Sigma_{k<n} term(k) + rest, where value contains exactly one library sum: the remainder is proved equal
+        to `rest`, the range equal to n, and the summands equal at a fresh index (extensionality)"""
+        found = self.find_sums(value)
+        if len(found) != 1:
+            value = self.resolve(z3.simplify(value))
+            found = self.find_sums(value)
+        if len(found) != 1:
+            self.ensure(name + " [value contains exactly one sum, found %d]" % len(found), z3.BoolVal(False))
+            return
+        T = found[0]
+        ps, term2, n2 = self.ctx.sums[str(T.decl())]
+        self.ensure(name + " [the remainder]", value - T == rest)
+        self.ensure(name + " [range]", z3.And(to_num(n2) == to_num(n), T.arg(0) == to_num(n)))
+        k = z3.Int(self.ctx._name('ks'))
+        self.ctx.solver.push()
+        pc_len = len(self.ctx.pc)
+        try:
+            self.ctx.assume(z3.And(k >= 0, k < to_num(n)))
+            self.ctx.oblige(name + " [summand]", term2(k) == term(k))
+        finally:
+            self.ctx.solver.pop()
+            del self.ctx.pc[pc_len:]
+
     def new_object(self, cls_spec, **fields):
         cls = self.cls(cls_spec) if isinstance(cls_spec, str) else cls_spec
         return ObjVal(cls, dict(fields))
@@ -317,7 +384,7 @@ def run_contract(c, root='/repo/src', verbose=False):
         if seen > c.max_paths:
             res.undecided.append("path budget of %d exhausted" % c.max_paths)
             break
-        ctx = Ctx(prefix, timeout_ms=c.timeout_ms, label=c.cid)
+        ctx = Ctx(prefix, timeout_ms=int(c.timeout_ms * float(os.environ.get('PYVC_TIMEOUT_SCALE', '1'))), label=c.cid)
         it = Interp(program, ctx, lib)
         vc = VC(c, it, program)
         try:
